@@ -8,7 +8,7 @@ import numpy as np
 from . import env  # noqa: F401  (shim + path first)
 
 
-def values(n, nch, dtype, salt=0):
+def values(n, nch, dtype, salt=0, nonfinite=False):
     """(n, nch) array of small integers, a pure function of the arguments; all rows distinct in
     practice so that a mis-addressed row is visible."""
     dtype = np.dtype(dtype)
@@ -19,7 +19,14 @@ def values(n, nch, dtype, salt=0):
         v = v % (2 ** (8 * dtype.itemsize)) if dtype.itemsize < 2 else (v + 1994)
     if dtype == np.dtype('int8'):
         v = v % 256 - 128
-    return v.astype(dtype)
+    v = v.astype(dtype)
+    if nonfinite and dtype.kind == 'f':
+        # a float recording may hold NaN / inf samples (saturated or masked stretches)
+        i = np.arange(n)
+        v[i % 5 == (salt % 5), nch - 1] = np.nan
+        v[i % 7 == 3, 0] = np.inf
+        v[i % 11 == 5, nch - 1] = -np.inf
+    return v
 
 
 def header_bytes(offset):
